@@ -28,6 +28,11 @@ Definition str := list N.
 Definition lit (s : String.string) : str :=
   List.map N_of_ascii (String.list_ascii_of_string s).
 Arguments lit s%string.
+(* string constants are evaluated where they are written, so that the extracted
+   model contains plain code-point lists and no Coq `string` *)
+Notation "'LIT' s" :=
+  (ltac:(let v := eval vm_compute in (lit s%string) in exact v))
+  (at level 10, s at level 0, only parsing).
 
 Fixpoint str_eqb (a b : str) : bool :=
   match a, b with
@@ -100,7 +105,7 @@ Fixpoint integer_loop (s : str) (cur : option N) (found : bool) : option N * boo
   | [] => (cur, found, [])
   end.
 
-Definition msg_width : str := lit "width too large".
+Definition msg_width : str := (LIT "width too large").
 
 (* Result<Option<usize>, String> and the rest of the input *)
 Definition integer (s : str) : (option N + str) * str :=
@@ -144,12 +149,12 @@ Definition parameters (s : str) : (params + str) * str :=
   | [] => (inl default_params, s)
   end.
 
-Definition msg_unclosed : str := lit "unclosed '('".
-Definition msg_expected_close : str := lit "expected '}'".
-Definition msg_unmatched_close : str := lit "unmatched '}'".
-Definition msg_unexpected_open : str := lit "unexpected '('".
-Definition msg_unexpected_rpar : str := lit "unexpected ')'".
-Definition msg_unexpected_bslash : str := lit "unexpected '\'".
+Definition msg_unclosed : str := (LIT "unclosed '('").
+Definition msg_expected_close : str := (LIT "expected '}'").
+Definition msg_unmatched_close : str := (LIT "unmatched '}'").
+Definition msg_unexpected_open : str := (LIT "unexpected '('").
+Definition msg_unexpected_rpar : str := (LIT "unexpected ')'").
+Definition msg_unexpected_bslash : str := (LIT "unexpected '\'").
 
 Section Parser.
   Variable alpha alnum : N -> bool.
@@ -314,68 +319,64 @@ Inductive chunk :=
 | CError (msg : str)
 | CPanic.                                       (* From<Piece> panicked *)
 
-Definition err_open : str := lit "{ERROR: ".
+Definition err_open : str := (LIT "{ERROR: ").
 
 Definition date_format_of (arg : list piece) : str :=
   flat_map (fun p => match p with
                      | PText t => t
-                     | PArg _ _ _ => lit "{ERROR: unexpected formatter}"
+                     | PArg _ _ _ => (LIT "{ERROR: unexpected formatter}")
                      | PError e => err_open ++ e ++ [125]
                      end) arg.
 
-Definition one_of (nm : str) (a b : String.string) : bool :=
-  str_eqb nm (lit a) || str_eqb nm (lit b).
-Arguments one_of nm (a b)%string.
+Definition one_of (nm a b : str) : bool := str_eqb nm a || str_eqb nm b.
 
 Definition no_args (args : list (list piece)) (prm : params) (k : leaf) : chunk :=
   match args with
   | [] => CLeaf k prm
-  | _ => CError (lit "unexpected arguments")
+  | _ => CError (LIT "unexpected arguments")
   end.
 
 Section Compile.
   Variable strftime_ok : str -> bool.
 
   Definition compile_date (args : list (list piece)) (prm : params) : chunk :=
-    if Nat.ltb 2 (length args) then CError (lit "expected at most two arguments") else
-    let fmt := match args with a :: _ => date_format_of a | [] => lit "%+" end in
+    if Nat.ltb 2 (length args) then CError (LIT "expected at most two arguments") else
+    let fmt := match args with a :: _ => date_format_of a | [] => (LIT "%+") end in
     if negb (strftime_ok fmt)
-    then CError (lit "invalid date format `" ++ fmt ++ lit "`") else
+    then CError ((LIT "invalid date format `") ++ fmt ++ (LIT "`")) else
     match nth_error args 1 with
     | Some arg =>
       match arg with
       | PText z :: _ =>
-        if str_eqb z (lit "utc") then CLeaf (KTime fmt Utc) prm
-        else if str_eqb z (lit "local") then CLeaf (KTime fmt Local) prm
-        else CError (lit "invalid timezone `" ++ z ++ lit "`")
-      | _ :: _ => CError (lit "invalid timezone")
-      | [] => CError (lit "invalid timezone")
+        if str_eqb z (LIT "utc") then CLeaf (KTime fmt Utc) prm
+        else if str_eqb z (LIT "local") then CLeaf (KTime fmt Local) prm
+        else CError ((LIT "invalid timezone `") ++ z ++ (LIT "`"))
+      | _ :: _ => CError (LIT "invalid timezone")
+      | [] => CError (LIT "invalid timezone")
       end
     | None => CLeaf (KTime fmt Local) prm
     end.
 
   (* key / default of X: the FIRST piece of the argument only *)
-  Definition mdc_arg (what : String.string) (arg : list piece) : str + str :=
+  Definition mdc_arg (what : str) (arg : list piece) : str + str :=
     match arg with
     | PText t :: _ => inl t
     | PError e :: _ => inr e
-    | PArg _ _ _ :: _ => inr (lit what)
-    | [] => inr (lit what)
+    | PArg _ _ _ :: _ => inr what
+    | [] => inr what
     end.
 
-  Arguments mdc_arg what%string arg.
-
   Definition compile_mdc (args : list (list piece)) (prm : params) : chunk :=
-    if Nat.ltb 2 (length args) then CError (lit "expected at most two arguments") else
+    if Nat.ltb 2 (length args) then CError (LIT "expected at most two arguments") else
     match args with
-    | [] => CError (lit "missing MDC key")
+    | [] => CError (LIT "missing MDC key")
     | a :: _ =>
-      match mdc_arg "invalid MDC key" a with
+      match mdc_arg (LIT "invalid MDC key") a with
       | inr e => CError e
       | inl key =>
         match nth_error args 1 with
         | Some b =>
-          match mdc_arg "invalid MDC default" b with
+          match mdc_arg (LIT "invalid MDC default") b with
           | inr e => CError e
           | inl dflt => CLeaf (KMdc key dflt) prm
           end
@@ -391,7 +392,7 @@ Section Compile.
     | PError e => CError e
     | PArg nm args prm =>
       let grp (g : group) :=
-        if negb (Nat.eqb (length args) 1) then CError (lit "expected exactly one argument")
+        if negb (Nat.eqb (length args) 1) then CError (LIT "expected exactly one argument")
         else (fix pop (l : list (list piece)) : chunk :=      (* args.pop().unwrap() *)
                 match l with
                 | [] => CPanic
@@ -400,24 +401,24 @@ Section Compile.
                             | _ :: _ => pop r
                             end
                 end) args in
-      if one_of nm "d" "date" then compile_date args prm
-      else if one_of nm "h" "highlight" then grp GHighlight
-      else if one_of nm "D" "debug" then grp GDebug
-      else if one_of nm "R" "release" then grp GRelease
-      else if one_of nm "l" "level" then no_args args prm KLevel
-      else if one_of nm "m" "message" then no_args args prm KMessage
-      else if one_of nm "M" "module" then no_args args prm KModule
-      else if str_eqb nm (lit "n") then no_args args prm KNewline
-      else if one_of nm "f" "file" then no_args args prm KFile
-      else if one_of nm "L" "line" then no_args args prm KLine
-      else if one_of nm "T" "thread" then no_args args prm KThread
-      else if one_of nm "I" "thread_id" then no_args args prm KThreadId
-      else if one_of nm "P" "pid" then no_args args prm KPid
-      else if one_of nm "i" "tid" then no_args args prm KSysTid
-      else if one_of nm "t" "target" then no_args args prm KTarget
-      else if one_of nm "X" "mdc" then compile_mdc args prm
+      if one_of nm (LIT "d") (LIT "date") then compile_date args prm
+      else if one_of nm (LIT "h") (LIT "highlight") then grp GHighlight
+      else if one_of nm (LIT "D") (LIT "debug") then grp GDebug
+      else if one_of nm (LIT "R") (LIT "release") then grp GRelease
+      else if one_of nm (LIT "l") (LIT "level") then no_args args prm KLevel
+      else if one_of nm (LIT "m") (LIT "message") then no_args args prm KMessage
+      else if one_of nm (LIT "M") (LIT "module") then no_args args prm KModule
+      else if str_eqb nm (LIT "n") then no_args args prm KNewline
+      else if one_of nm (LIT "f") (LIT "file") then no_args args prm KFile
+      else if one_of nm (LIT "L") (LIT "line") then no_args args prm KLine
+      else if one_of nm (LIT "T") (LIT "thread") then no_args args prm KThread
+      else if one_of nm (LIT "I") (LIT "thread_id") then no_args args prm KThreadId
+      else if one_of nm (LIT "P") (LIT "pid") then no_args args prm KPid
+      else if one_of nm (LIT "i") (LIT "tid") then no_args args prm KSysTid
+      else if one_of nm (LIT "t") (LIT "target") then no_args args prm KTarget
+      else if one_of nm (LIT "X") (LIT "mdc") then compile_mdc args prm
       else if str_eqb nm [] then grp GAlign
-      else CError (lit "unknown formatter `" ++ nm ++ lit "`")
+      else CError ((LIT "unknown formatter `") ++ nm ++ (LIT "`"))
     end.
 End Compile.
 
@@ -455,8 +456,8 @@ Fixpoint dec_loop (k : nat) (n : N) (acc : str) : str :=
 Definition dec (n : N) : str := dec_loop (S (N.size_nat n)) n [].
 
 Definition level_str (l : N) : str :=
-  if l =? 1 then lit "ERROR" else if l =? 2 then lit "WARN" else if l =? 3 then lit "INFO"
-  else if l =? 4 then lit "DEBUG" else lit "TRACE".
+  if l =? 1 then (LIT "ERROR") else if l =? 2 then (LIT "WARN") else if l =? 3 then (LIT "INFO")
+  else if l =? 4 then (LIT "DEBUG") else (LIT "TRACE").
 
 (* Style::new().text(Red).intense(true) = 2 + 512; Yellow = 4; Green = 3; Cyan = 7 *)
 Definition level_style (l : N) : option N :=
@@ -515,7 +516,7 @@ Section Encode.
   Variable time_str : str -> tz -> str.
   Variable e : env.
 
-  Definition q3 : str := lit "???".
+  Definition q3 : str := (LIT "???").
 
   (* FormattedChunk::encode, leaves *)
   Definition enc_leaf (k : leaf) : list item :=
@@ -528,7 +529,7 @@ Section Encode.
     | KModule => chars (opt_or (e_module e) q3)
     | KFile => chars (opt_or (e_file e) q3)
     | KLine => chars (match e_line e with Some n => dec n | None => q3 end)
-    | KThread => chars (opt_or (e_thread e) (lit "unnamed"))
+    | KThread => chars (opt_or (e_thread e) (LIT "unnamed"))
     | KThreadId => chars (dec (e_tid e))
     | KPid => chars (dec (e_pid e))
     | KSysTid => chars (dec (e_systid e))
